@@ -1,4 +1,5 @@
 import SluProofs.Lemmas.RoundingEquil
+import SluProofs.Lemmas.RoundingAlg
 import Mathlib.Algebra.Order.Field.Rat
 import Mathlib.Tactic.NormNum
 /-
@@ -30,6 +31,8 @@ Constants PROVED (all not larger than the constants the checks use):
                 (`expert_original_check_constant`)     γ_{4n+10}|L̂||Û||x_eq| + γ_{n+3}|b1|  (proved: γ_{3n+5}, γ_1|b1|)
   kernels (C14) (`trsv_lower_check_constant`, `trsv_upper_check_constant`)  γ_{2n+8}(|T||x̂| + |b|)  (proved: γ_{n+1}|T||x̂|)
                 (`gstrs_check_constant`)               γ_{4n+4}|P||Q||x̂| + γ_{n+1}|b|      (proved: γ_{2n+2})
+  executable    (`rounded_lu_backward_error`, `rounded_solve_backward_error`)  γ_{n+1}, γ_{3n}: rounded
+                Doolittle + substitutions in ANY `FlModel`, all sizes, no hypothesis but nonzero pivots
 Also: sparse kernels that skip structural zeros are covered (`Dot.of_filter`); operations done
 more accurately than `u` are covered (`Dot.mono`, `LUComputed.mono`); with `u = 0` the bounds
 collapse to the exact identities of C01 / C02 (`LUComputed.exact_identity`, `lu_solve_exact`).
@@ -228,6 +231,30 @@ theorem expert_original_check_constant {u : F} (hu0 : 0 ≤ u) {n : Nat} {a A1 L
     (gamma_mono hu0 (j := 1) (k := n + 3) (by omega) (mul_lt_one_of_le hu0 (by omega) hu)) (abs_nonneg (b1 i))
   linarith
 
+/-! ### an executable instance: rounded Doolittle + substitutions in ANY arithmetic -/
+
+/-- **for every arithmetic obeying the standard model** (`FlModel`: total functions `add sub mul div
+fma` with `fl(x op y) = (x op y)(1+d)`, `|d| ≤ u`), every size and every matrix whose computed
+pivots are nonzero, the rounded Doolittle factors satisfy `|A - L̂Û| ≤ γ_{n+1} |L̂||Û|`. -/
+theorem rounded_lu_backward_error (M : FlModel F) (hu0 : 0 ≤ M.u) (A : Nat → Nat → F) (m n : Nat)
+    (hpiv : ∀ k < n, (doolittle M A n).2 k k ≠ 0) (hu : ((n + 1 : Nat) : F) * M.u < 1)
+    (i : Nat) (hi : i < m) (j : Nat) (hj : j < n) :
+    |A i j - ∑ t ∈ range n, (doolittle M A n).1 i t * (doolittle M A n).2 t j| ≤
+      gamma M.u (n + 1) * ∑ t ∈ range n, |(doolittle M A n).1 i t| * |(doolittle M A n).2 t j| :=
+  doolittle_backward_error M hu0 A m n hpiv hu i hi j hj
+
+/-- … and the solution computed from them by rounded substitutions satisfies
+`|b - A x̂| ≤ γ_{3n} |L̂||Û||x̂|`. -/
+theorem rounded_solve_backward_error (M : FlModel F) (hu0 : 0 ≤ M.u) (A : Nat → Nat → F) (b : Nat → F)
+    (n : Nat) (hpiv : ∀ k < n, (doolittle M A n).2 k k ≠ 0) (hu : ((3 * n : Nat) : F) * M.u < 1)
+    (i : Nat) (hi : i < n) :
+    |b i - ∑ j ∈ range n, A i j *
+        backSubst M n (doolittle M A n).2 (fwdSub M (doolittle M A n).1 b n) n j| ≤
+      gamma M.u (3 * n) * ∑ j ∈ range n,
+        (∑ t ∈ range n, |(doolittle M A n).1 i t| * |(doolittle M A n).2 t j|) *
+          |backSubst M n (doolittle M A n).2 (fwdSub M (doolittle M A n).1 b n) n j| :=
+  doolittle_solve_backward_error M hu0 A b n hpiv hu i hi
+
 /-! ### the hypotheses are satisfiable
 
 1. Exact arithmetic is the instance `u = 0`: every exact factorization satisfies `LUComputed 0`
@@ -413,6 +440,24 @@ example : LUComputed (0 : Rat) 2 2 1 Ax Lx Ux :=
 
 example : Ax 0 0 = 3 ∧ Ax 0 1 = 5 ∧ Ax 1 0 = 1 ∧ Ax 1 1 = 2 := by
   simp [Ax, Finset.sum_range_succ, Lx, Ux]; norm_num
+
+/-- the executable rounded LU run on `A` in the arithmetic that inflates every result by `9/8`:
+`l̂₁₀ = 27/64` (exact: `1/3`), `û₁₁ = -1719/4096` (exact: `1/3`) — a very inexact arithmetic, and the
+theorem applies to it as it stands (`3u < 1`). -/
+def Minfl : FlModel Rat := FlModel.inflate (1 / 8) (by norm_num)
+
+example : (doolittle Minfl A 2).1 1 0 = 27 / 64 ∧ (doolittle Minfl A 2).2 1 1 = -1719 / 4096 ∧
+    (doolittle Minfl A 2).2 0 0 = 3 := by decide +kernel
+
+example (i : Nat) (hi : i < 2) (j : Nat) (hj : j < 2) :
+    |A i j - ∑ t ∈ range 2, (doolittle Minfl A 2).1 i t * (doolittle Minfl A 2).2 t j| ≤
+      gamma Minfl.u 3 * ∑ t ∈ range 2, |(doolittle Minfl A 2).1 i t| * |(doolittle Minfl A 2).2 t j| := by
+  refine rounded_lu_backward_error Minfl (by norm_num [Minfl, FlModel.inflate]) A 2 2 ?_
+    (by norm_num [Minfl, FlModel.inflate]) i hi j hj
+  intro k hk
+  obtain rfl | rfl : k = 0 ∨ k = 1 := by omega
+  · decide +kernel
+  · decide +kernel
 
 end Ex
 
